@@ -43,4 +43,14 @@ CLAIMS = {
                 "order; children get no clock and are linked to their parent; MS does not manage children.",
         "note": TB + "Not decided: the iff between `running` and the whole command history as such (follows from the single-writer rule and the decision tables by induction, argued not checked); trxcon's socket plan is cross-checked where cfront is available.",
     },
+    "C18": {
+        "technique": "complete boolean decision tables (atoms updated along the path) of the drop / FAKE_DROP / suppression code, who-may-write scan, constant folding against the validation ranges",
+        "text": "Decides for all command/traffic interleavings the per-burst decision: the drop counter is written only by __init__, "
+                "the two FAKE_DROP forms and a decrement by exactly 1 that coincides with `drop` (amount != 0 and fn % period == 0); "
+                "FAKE_DROP stores state only when amount >= 0 (and period > 0), else returns -1 with no store; the 64-row decision "
+                "table of FakeTRX.handle_data_msg equals the specified one (mute => NOPE without consuming the counter; NOPE => nothing on "
+                "v0, exactly one burst-less indication with the noise constants on v1; otherwise exactly one forward); a muted sender "
+                "strips the burst before any copy and trans() turns that into NOPE; the noise constants lie inside the validated ranges.",
+        "note": TB + "Not decided: 'exactly the next n matching bursts' as a count over a stream (follows by induction from the one-decrement-per-suppressed-burst rule).",
+    },
 }
